@@ -1048,6 +1048,13 @@ func FromV3RequestBodyFormData(mediaType *openapi3.MediaType) openapi2.Parameter
 				break
 			}
 		}
+		// ToV3 moves the requiredness of form parameters to the enclosing object schema
+		for _, name := range mediaType.Schema.Value.Required {
+			if name == propName {
+				required = true
+				break
+			}
+		}
 
 		var v2Items *openapi2.SchemaRef
 		if val.Items != nil {
